@@ -143,6 +143,7 @@ Proof. unfold done_ops. simpl. rewrite map_app. reflexivity. Qed.
 Lemma inv_step progs t0 st i : inv progs t0 st -> inv progs t0 (cstep st i).
 Proof.
   intros [IT IO IL]. unfold cstep.
+  destruct (l_pend (nth i (c_loc st) loc0)) as [|d pr]; [|constructor; auto].
   destruct (nth_error (c_progs st) i) as [[|a rest]|] eqn:E; try (constructor; auto; fail).
   destruct (enabled (c_lock st) a); [|constructor; auto].
   destruct (nth_error_nth _ _ _ [] E) as [N L].
@@ -186,7 +187,7 @@ Qed.
 
 Lemma all_done_nth st i : all_done st = true -> nth i (c_progs st) [] = [].
 Proof.
-  unfold all_done. intros H. rewrite forallb_forall in H.
+  unfold all_done. intros H. apply andb_true_iff in H as [H _]. rewrite forallb_forall in H.
   destruct (nth_in_or_default i (c_progs st) []) as [I|D]; auto.
   specialize (H _ I). destruct (nth i (c_progs st) []); auto. discriminate.
 Qed.
@@ -418,17 +419,3 @@ Proof.
         -- rewrite H in I. destruct I.
 Qed.
 
-(* ------------------------------------------------------------------ reader steps *)
-(* a reader step that was consistent delivered to a connection subscribed at that moment with a level at or below the
-   record's level *)
-Lemma reader_sound t m lv py c lev nm :
-  reader_ok t (ANext m lv py c lev (Some nm)) = true ->
-  chosen t m c = Some lev /\ (lev <= lv)%Z /\ nm = record_name lv py.
-Proof.
-  simpl. intros H. apply andb_true_iff in H as [H1 H2].
-  rewrite look_chosen in H1. unfold next_sent in H2.
-  destruct (chosen t m c) as [x|]; simpl in H1; [|discriminate].
-  apply Z.eqb_eq in H1; subst x.
-  destruct (Z.leb lev lv) eqn:L; simpl in H2; [|discriminate].
-  apply name_eqb_eq in H2. apply Z.leb_le in L. auto.
-Qed.
